@@ -30,6 +30,17 @@ def drive : List String → String
         "ok\t" ++ enc m.pfx ++ "\t" ++ enc m.command ++ "\t" ++ encList m.args ++ "\t" ++
           encTags m.tags ++ "\t" ++ enc str ++ "\t" ++ enc n ++ "\t" ++ enc u ++ "\t" ++ enc h ++
           "\t" ++ encOpt (parseNeedsTime s)
+  | ["parsemsg", l] =>
+    match dec l with
+    | none => "bad-op"
+    | some s =>
+      match driverParseMsg (fun _ => true) s with
+      | .none => "none"
+      | .crash e => "crash\t" ++ e
+      | .msg m str n u h =>
+        "ok\t" ++ enc m.pfx ++ "\t" ++ enc m.command ++ "\t" ++ encList m.args ++ "\t" ++
+          encTags m.tags ++ "\t" ++ enc str ++ "\t" ++ enc n ++ "\t" ++ enc u ++ "\t" ++ enc h ++
+          "\t" ++ encOpt (parseNeedsTime (strip s))
   | ["format", p, c, a, t] =>
     match dec p, dec c, decList a, decTags t with
     | some p, some c, some a, some t => enc (format ⟨p, c, a, t⟩)
